@@ -1,4 +1,4 @@
-(* Witnesses: the code as it is (current_rules) refutes four statements that hold for the repaired rules on the
+(* Witnesses: the code as it was (original_rules; single_alignment_kept: as it is, current_rules) refutes statements that hold for the repaired rules on the
    same inputs.  Each witness was first found on the real implementation by the correspondence check. *)
 From Coq Require Import List Arith Bool ZArith Lia.
 From WH.Model Require Import EditDist AlleleDetect.
@@ -9,14 +9,14 @@ Import ListNotations.
 
 (* 1. reference TCTGCATCGTAGTCTCGC, deletion GC>G at 3, read TGCATCC = ref[2..8) + ref[13], CIGAR 6M5N1M at 2:
       the read carries REF, realign reports ALT *)
-Theorem realign_with_skips_current_refuted : ~ realign_correct_with_skips_statement current_rules.
+Theorem realign_with_skips_original_refuted : ~ realign_correct_with_skips_statement original_rules.
 Proof.
 intros H.
 specialize (H [84;67;84;71;67;65;84;67;71;84;65;71;84;67;84;67;71;67]%Z [84;71;67;65;84;67;67]%Z 10
               (mkVar 3 [71;67]%Z [71]%Z) [(OpM, 6); (OpN, 5); (OpM, 1)] 0 1 1 OpM 6
               [] [OpM] [OpM; OpM] [OpM; OpM; OpM] [OpN; OpN; OpN; OpN; OpN; OpM]
               [84;67]%Z [84]%Z [65;84;67]%Z [71;84;65;71;84;67;84;67;71;67]%Z [] [67]%Z 0).
-assert (Hr : realign current_rules [84;67;84;71;67;65;84;67;71;84;65;71;84;67;84;67;71;67]%Z 10
+assert (Hr : realign original_rules [84;67;84;71;67;65;84;67;71;84;65;71;84;67;84;67;71;67]%Z 10
                (mkVar 3 [71;67]%Z [71]%Z) [(OpM, 6); (OpN, 5); (OpM, 1)] [84;71;67;65;84;67;67]%Z 0 1 1
              = Some (Some 1)) by (vm_compute; reflexivity).
 rewrite Hr in H.
@@ -31,9 +31,19 @@ Qed.
 Lemma realign_with_skips_repaired : realign_correct_with_skips_statement repaired_rules.
 Proof. unfold realign_correct_with_skips_statement. intros. eapply realign_correct; eauto. Qed.
 
+(* the code as it is now (skip rule repaired by 8735279) *)
+Lemma window_end_skip R R' rest : r_skip_consumed R = r_skip_consumed R' -> window_end R rest -> window_end R' rest.
+Proof. intros E [H|[H1 H2]]; [now left|right]. split; [now rewrite <- E|exact H2]. Qed.
+
+Lemma realign_with_skips_current : realign_correct_with_skips_statement current_rules.
+Proof.
+unfold realign_correct_with_skips_statement. intros.
+eapply realign_correct; eauto.
+Qed.
+
 (* 2. reference GATCAGTC, insertion C>CGG at 3 (normalised: GG before 4), read GATTTCGGAGTC, CIGAR 3M2I1M2I4M:
       the read carries the listed insertion (second I) behind an unrelated insertion TT; reported: REF *)
-Theorem detect_noref_never_wrong_current_refuted : ~ detect_noref_never_wrong_statement current_rules.
+Theorem detect_noref_never_wrong_original_refuted : ~ detect_noref_never_wrong_statement original_rules.
 Proof.
 intros H.
 specialize (H [mkVar 3 [67]%Z [67;71;71]%Z] 0 [(OpM, 3); (OpI, 2); (OpM, 1); (OpI, 2); (OpM, 4)]
@@ -51,7 +61,7 @@ apply Hc, H; try (vm_compute; reflexivity); try lia.
 Qed.
 
 (* 3. reference GATCAGTC, insertion C>CTT at 3, read AGTC aligned 4M at 4 (does not contain the anchor): reported REF *)
-Theorem detect_noref_only_overlapped_current_refuted : ~ detect_noref_only_overlapped_statement current_rules.
+Theorem detect_noref_only_overlapped_original_refuted : ~ detect_noref_only_overlapped_statement original_rules.
 Proof.
 intros H.
 specialize (H [mkVar 3 [67]%Z [67;84;84]%Z] 4 [(OpM, 4)] [65;71;84;67]%Z [] 0 0 30 (mkVar 3 [67]%Z [67;84;84]%Z)).
@@ -62,7 +72,7 @@ destruct H as [H _]; try (vm_compute; reflexivity).
 Qed.
 
 (* 4. a forward/reverse read pair: the allele of the forward mate is lost *)
-Theorem pair_keeps_both_mates_current_refuted : ~ pair_keeps_both_mates_statement current_rules.
+Theorem pair_keeps_both_mates_original_refuted : ~ pair_keeps_both_mates_statement original_rules.
 Proof.
 intros H.
 specialize (H 100000%Z (mkAR 0 false false 0 5 [(2, 1, 30)]) (mkAR 0 false true 5 10 [(7, 1, 30)]) (2, 1, 30)).
